@@ -42,6 +42,7 @@ def ball_query(ctx, rule, qn, p, q, size_term, tag):
 
 
 def check(ctx):
+    K.point_order_contract(ctx, "R3")     # indices returned by the tree are unravelled in C order: the tree must number the points in C order
     K.roles_rule(ctx, "R2", [RW, EW], with_return=True, skip_kinds=("arith",), require={RW: [{"tree-query"}, {"region-arg"}], EW: [{"tree-query"}]})
     want_wr = [p for p in spec.paths("coords.window_region") if p.exit == "return"][0].value
     n = 0
